@@ -151,11 +151,13 @@ def main(tier, seed, only=None):
     tot = {"runs": 0, "changed": 0, "budget": 0, "b": 0}
     if not only or only == "a":
         if tier == "quick":
-            sets = [("tree(CORE,3)", list(B.tree(B.CORE, 3))), ("tree(MIXED,3)", list(B.tree(B.MIXED, 3))),
+            sets = [("reuse-family", list(reuse_family())),
+                    ("tree(CORE,3)", list(B.tree(B.CORE, 3))), ("tree(MIXED,3)", list(B.tree(B.MIXED, 3))),
                     ("rule-family(1)/4", list(families.rule_family(1))[::4]),
                     ("mem-family(2)/2", list(families.mem_family(2))[::2])]
         else:
-            sets = [("tree(CORE,4)", list(B.tree(B.CORE, 4))), ("tree(MIXED,4)", list(B.tree(B.MIXED, 4))),
+            sets = [("reuse-family", list(reuse_family())),
+                    ("tree(CORE,4)", list(B.tree(B.CORE, 4))), ("tree(MIXED,4)", list(B.tree(B.MIXED, 4))),
                     ("rule-family(1)", list(families.rule_family(1))), ("mem-family(2)", list(families.mem_family(2)))]
 
         def on_a(cfg, block, status, value):
@@ -187,6 +189,22 @@ def main(tier, seed, only=None):
             pool.run_tasks(tasks, work_a, setup=driver.setup_ctx, unit_timeout=30, on_result=on_a)
         chk.cov["sets"] = info
         chk.cov["configs"] = [list(c) for c in cs] + [list(c) for c in smt_cs]
+    if not only or only == "c":
+        def on_c(cfg, unit, status, value):
+            chk.add("evaluations")
+            if status != "ok":
+                tot["budget"] += 1
+                chk.violation("harness-%s" % status, {"detail": str(value)[-300:], "config": list(cfg)})
+                return
+            tot["priced"] = tot.get("priced", 0) + 1
+            if value["viol"]:
+                v = value["viol"]
+                chk.violation("%s;%s" % (v["clause"], v["opcode"]), v)
+
+        vu = vocabulary_units()
+        pool.run_tasks([(cfg, vu) for cfg in (("-greedy",), ("-push0", "-greedy"))], work_price, setup=driver.setup_ctx,
+                       unit_timeout=30, on_result=on_c)
+        chk.cov["opcodes_priced"] = len(vu)
     if not only or only == "b":
         base = list(B.tree(B.CORE8 + [B.I("SSTORE"), B.I("SLOAD"), B.I("STOP")], 3, max_need=3))
         step = 8
@@ -244,3 +262,78 @@ def replay(path):
         return 1
     print("no violation on replay")
     return 0
+
+
+# ------------------------------------------------------------------------------------------------------------ (C)
+
+DYNAMIC = {"EXP", "KECCAK256", "SHA3", "SLOAD", "SSTORE", "BALANCE", "EXTCODESIZE", "EXTCODEHASH", "EXTCODECOPY",
+           "CALL", "CALLCODE", "DELEGATECALL", "STATICCALL", "CREATE", "CREATE2", "SELFDESTRUCT", "LOG0", "LOG1",
+           "LOG2", "LOG3", "LOG4", "CALLDATACOPY", "CODECOPY", "RETURNDATACOPY", "ASSIGNIMMUTABLE"}
+
+
+def vocabulary_units():
+    """One block per opcode of the vocabulary (operands pushed first), plus reuse forms for value-producing ones."""
+    out = []
+    for name in sorted(E.ARITY):
+        if name in ("tag", "JUMPDEST") or name.startswith(("DUP", "SWAP")) and name not in ("DUP1", "DUP16", "SWAP1", "SWAP16"):
+            continue
+        pops, pushes = E.ARITY[name]
+        arg = {"PUSH": 1, "PUSH [tag]": "1", "PUSH data": "a1", "PUSH [$]": "0", "PUSH #[$]": "0", "PUSHLIB": "l1",
+               "PUSHIMMUTABLE": "a1", "ASSIGNIMMUTABLE": "a1"}.get(name)
+        out.append(("price", name, [B.P(1)] * pops + [(name, arg)]))
+    for v in (0, 1, 0xFF, 0x100, 0xFFFFFF, E.MASK):
+        out.append(("price", "PUSH", [B.P(v)]))
+    return out
+
+
+def reuse_family():
+    """Value-producing instructions whose result is used two or three times (DUP versus recomputation)."""
+    zero = ["ADDRESS", "ORIGIN", "CALLER", "CALLVALUE", "CALLDATASIZE", "CODESIZE", "GASPRICE", "RETURNDATASIZE",
+            "COINBASE", "TIMESTAMP", "NUMBER", "DIFFICULTY", "GASLIMIT", "CHAINID", "SELFBALANCE", "BASEFEE",
+            "PUSHSIZE", "PUSHDEPLOYADDRESS"]
+    for z in zero:
+        i = B.I(z)
+        yield [i, B.I("DUP1"), B.I("ADD")]
+        yield [i, i, B.I("ADD")]
+        yield [i, B.I("DUP1"), B.I("DUP1"), B.I("ADD"), B.I("ADD")]
+        yield [i, B.I("DUP1"), B.I("MSTORE")]
+        yield [i, B.I("SWAP1"), i, B.I("ADD"), B.I("ADD")]
+    for v in (0, 1, 0xFF, 0xFFFF, 0xFFFFFFFF, E.MASK):
+        yield [B.P(v), B.I("DUP1"), B.I("ADD")]
+        yield [B.P(v), B.P(v), B.I("ADD")]
+        yield [B.P(v), B.I("DUP1"), B.I("DUP1"), B.I("ADD"), B.I("ADD")]
+    for u in ("ISZERO", "NOT", "CALLDATALOAD", "MLOAD", "SLOAD", "BALANCE", "EXTCODESIZE", "BLOCKHASH"):
+        yield [B.I("DUP1"), B.I(u), B.I("SWAP1"), B.I(u), B.I("ADD")]
+        yield [B.I(u), B.I("DUP1"), B.I("ADD")]
+    for b2 in ("ADD", "MUL", "SUB", "DIV", "SIGNEXTEND", "EXP", "BYTE", "SHL", "SAR"):
+        yield [B.I("DUP2"), B.I("DUP2"), B.I(b2), B.I("SWAP2"), B.I("SWAP1"), B.I(b2), B.I("ADD")]
+        yield [B.I(b2), B.I("DUP1"), B.I("MUL")]
+    for t in ("PUSH [tag]", "PUSH data", "PUSHIMMUTABLE", "PUSHLIB", "PUSH [$]", "PUSH #[$]"):
+        i = B.I(t, "1" if t == "PUSH [tag]" else "a1" if t != "PUSHLIB" else "l1")
+        yield [i, B.I("DUP1"), B.I("ADD")]
+        yield [i, i, B.I("ADD")]
+
+
+def work_price(ctx, unit):
+    """The tool's own cost functions on a one-opcode block against the independent table."""
+    _kind, name, block = unit
+    push0 = ctx.push0
+    with repo.quiet():
+        ab = driver.build_one(block)
+        size = ab.bytes_required
+        gas = ab.gas_spent
+        length = ab.length
+    items = B.to_json_items(block)
+    exp_size = sum(asm_ref.item_bytes(i, push0) for i in items)
+    viol = None
+    if size != exp_size:
+        viol = {"clause": "size-table", "opcode": name, "tool": size, "independent": exp_size}
+    elif length != len(block):
+        viol = {"clause": "length-count", "opcode": name, "tool": length, "independent": len(block)}
+    elif name not in DYNAMIC:
+        exp_gas = sum(asm_ref.static_gas(i, push0) for i in items)
+        if gas != exp_gas:
+            viol = {"clause": "gas-table", "opcode": name, "tool": gas, "independent": exp_gas}
+    if viol:
+        viol.update({"block": B.to_text(block), "config": list(ctx.cfg), "criterion": "table"})
+    return {"viol": viol}
